@@ -131,6 +131,7 @@ PROPS = {
         "units": [
             R("h26", "c02", "TestC02_Random", (3000, 8, 1500), (300000, 16, 10000)),
             E("h26", "c02", "TestC02_Exhaustive", (8, 1500), (16, 10000)),
+            R("h26", "c02", "TestC02_Concurrent", (600, 4, 600), (60000, 16, 10000)),
         ],
     },
     "C04": {
